@@ -110,7 +110,7 @@ func run(c *harness.Ctx, i int) {
 		stateAccepted := false
 		opt := desync.SparseFileOptions{StateSaveFile: state}
 		if s > 0 {
-			kind := []string{"same", "same", "state-absent", "cache-absent", "cache-shorter", "cache-longer", "state-wrong-length", "preload"}[rng.Intn(8)]
+			kind := []string{"same", "same", "state-absent", "cache-absent", "cache-shorter", "cache-longer", "state-wrong-length", "preload", "foreign-cache-no-state", "failed-start"}[rng.Intn(10)]
 			restarts = append(restarts, kind)
 			st, _ := os.Stat(cache)
 			switch kind {
@@ -131,6 +131,21 @@ func run(c *harness.Ctx, i int) {
 				}
 			case "state-wrong-length":
 				os.WriteFile(state, make([]byte, len(idx.Chunks)/8+2+rng.Intn(3)), 0644)
+				doneAtSave = nil
+			case "foreign-cache-no-state":
+				// some other file of exactly the right length sits at the cache path and there is no state for it
+				junk := make([]byte, len(blob))
+				rng.Read(junk)
+				os.WriteFile(cache, junk, 0644)
+				os.Remove(state)
+				doneAtSave = nil
+			case "failed-start":
+				// the cache file is gone, the saved state is still there, and a start in between fails after it has
+				// created a fresh cache file (its init-state file does not exist)
+				os.Remove(cache)
+				if _, ferr := desync.NewSparseFile(cache, idx, ms, desync.SparseFileOptions{StateSaveFile: state, StateInitFile: filepath.Join(filepath.Dir(cache), "no-such-init-state")}); ferr != nil {
+					w.events["failed-start"] = true
+				}
 				doneAtSave = nil
 			case "preload":
 				// new cache, preloaded from the previous state
